@@ -149,7 +149,7 @@ def run(ctx):
                    maxbytes=72000000, shard4_limit=3, shard4_rowlens=(2, 1027, 1048580))
     else:
         # 16777216-byte rows are their own streaming chunk: limit 3 / 3 rows is the smallest result streamed in three chunks
-        par = dict(limits=(3, 18, 0), unlim=(0, 1, 18), rowlens=(2, 1027, 1048580, 16777216), maxbytes=51000000,
+        par = dict(limits=(3, 18, 0), unlim=(0, 1, 18), rowlens=(2, 1027, 1048580, 16777216), maxbytes=51000000, maxtotal=60000000,
                    shard4_limit=3, shard4_rowlens=(2,))
 
     # 1. exhaustive check of the delivery design against the property (all cases, all reader interleavings); the terminal
